@@ -18,7 +18,9 @@ Oracle (written from the property statement, independent of y0 and of the model;
   (c) any exception on an input inside the quantifier is a failure; invalid inputs must raise ValueError;
   (d) vocabulary (C06): every leaf is target-observational or a declared source domain under a subset of its
       experiments; no selection node anywhere;
-  (e) helpers: selection-node placement vs the independent rule, the diagram vs its set-theoretic definition, the
+  (e) on EVERY identify case: get_nodes_to_transport of every declared domain vs the independent rule
+      (De(Z)-W) u (C(W)-An(W) in G[bar Z]) computed with the oracle's own graph code;
+      helpers: selection-node placement vs the independent rule, the diagram vs its set-theoretic definition, the
       line-6 separation test vs true m-separation (path enumeration), activation vs its meaning (the same terms read in
       the source domain under the intervention);
   (R) the caller's graph / sets / dictionaries are unchanged by the call.
@@ -45,7 +47,10 @@ PROP = "C05"
 TARGET = FE.TARGET
 RULE = ("random ADMGs with 2-6 nodes (isolated nodes, bidirected-only nodes, bows) x disjoint non-empty X, Y x 0-2 source "
         "domains with random experiment sets Z_i and surrogate-outcome sets W_i (empty, overlapping, equal to X / Y, "
-        "unusable); plus relabelled/perturbed variants of the paper examples and of every past witness (nested "
+        "unusable); plus a structured SPREAD stream (a source domain whose 2-3 surrogate outcomes lie in different districts, a node "
+        "in the district of one of them that is no ancestor of W, no descendant of Z and an ancestor of the target outcome, so "
+        "that C(W) - An(W) matters: A -> M -> B, A -> S, M <-> U -> B, X = Z = {A}, W = {M, S}, Y = {B} and variations; random "
+        "ADMGs with W picked from different districts); plus relabelled/perturbed variants of the paper examples and of every past witness (nested "
         "c-component graphs that reach line 10 twice, line 10 inside a source domain, terms that contain only intervened "
         "variables); plus a malformed stream (overlapping X and Y, names outside the graph, mismatching domain keys); "
         "plus direct calls of the helpers. A case is non-trivial when the graph has >=3 nodes and the run reaches one of "
@@ -196,6 +201,75 @@ def _rand_identify(rng, nmax=6):
     return _idc(g, X, Y, doms, seed=rng.randrange(1 << 30))
 
 
+def _spread_case(rng):
+    """structured stream (round 2): a source domain whose surrogate outcomes are spread over several districts, with a node U in
+    the district of one surrogate outcome that is no ancestor of W, no descendant of Z, and an ancestor of the target
+    outcome (C(W) - An(W) is non-empty and matters): A -> M -> B, A -> S, M <-> U -> B with X = {A}, Y = {B}, Z = {A},
+    W = {M, S} and variations (third surrogate outcome, extra parents/edges, a second domain, larger X / Y)"""
+    k3 = rng.random() < 0.3
+    roles = ["A", "U", "M", "S"] + (["S2"] if k3 else []) + ["B"]
+    names = rng.sample(range(len(roles) + rng.choice([0, 0, 1])), len(roles))
+    n = dict(zip(roles, names))
+    di = [[n["A"], n["M"]], [n["M"], n["B"]], [n["U"], n["B"]], [n["A"], n["S"]]]
+    bi = [[n["U"], n["M"]]]
+    if k3:
+        di.append([rng.choice([n["A"], n["M"], n["S"]]), n["S2"]])
+        if rng.random() < 0.5:
+            di.append([n["S2"], n["B"]])
+    order = [n[r] for r in roles]
+    pos = {v: i for i, v in enumerate(order)}
+    for i in range(len(order)):
+        for j in range(i + 1, len(order)):
+            a, b = order[i], order[j]
+            if rng.random() < 0.08 and [a, b] not in di:
+                di.append([a, b])
+            if rng.random() < 0.05 and [a, b] not in bi and [b, a] not in bi:
+                bi.append([a, b])
+    X = [n["A"]]
+    Y = [n["B"]]
+    if rng.random() < 0.15:
+        Y.append(n["S"])
+    W = [n["M"], n["S"]] + ([n["S2"]] if k3 else [])
+    if rng.random() < 0.15:
+        W.append(n["B"])
+    Z = [n["A"]]
+    doms = [[sorted(Z), sorted(W)]]
+    r = rng.random()
+    if r < 0.25:       # a second domain with one of the surrogate outcomes only / with another experiment
+        doms.append([sorted(rng.sample(order, rng.randint(0, 2))), sorted(rng.sample(order, rng.randint(1, 2)))])
+    elif r < 0.35:
+        doms.insert(0, [[], sorted(rng.sample(order, 2))])
+    del pos
+    return _idc({"nodes": [], "di": di, "bi": bi}, X, Y, doms, seed=rng.randrange(1 << 30), stream="spread")
+
+
+def _spread_random(rng):
+    """random ADMG; one domain whose surrogate outcomes are chosen from DIFFERENT districts, experiments on (part of) X"""
+    for _ in range(50):
+        g = G.rand_graph(rng, 4, 6, acyclic=True, pd=rng.choice([0.3, 0.5]), pb=rng.choice([0.15, 0.3]))
+        nodes = G.all_nodes(g)
+        ds = [d for d in FE.districts(nodes, [tuple(e) for e in g["bi"]])]
+        if len(nodes) >= 4 and len(ds) >= 2 and any(len(d) >= 2 for d in ds) and len(g["bi"]) <= 8:
+            break
+    else:
+        return _rand_identify(rng)
+    big = rng.choice([d for d in ds if len(d) >= 2])
+    others = [d for d in ds if d != big]
+    W = {rng.choice(sorted(big))} | {rng.choice(sorted(d)) for d in rng.sample(others, rng.randint(1, min(2, len(others))))}
+    rest = [v for v in nodes if v not in W]
+    rng.shuffle(rest)
+    if not rest:
+        return _rand_identify(rng)
+    X = rest[:rng.randint(1, min(2, len(rest)))]
+    pool = [v for v in nodes if v not in X]
+    Y = rng.sample(pool, rng.randint(1, min(2, len(pool))))
+    Z = [v for v in X if rng.random() < 0.85] or [X[0]]
+    doms = [[sorted(Z), sorted(W)]]
+    if rng.random() < 0.3:
+        doms.append([sorted(v for v in nodes if rng.random() < 0.3), sorted(v for v in nodes if rng.random() < 0.4)])
+    return _idc(g, X, Y, doms, seed=rng.randrange(1 << 30), stream="spread_random")
+
+
 def _rand_malformed(rng):
     c = _rand_identify(rng, 5)
     kind = rng.choice(["overlap", "outside", "keys", "outside_dom"])
@@ -260,6 +334,9 @@ def cases(rng: random.Random, tier: str):
     out += [c for c in _corpus_dir() if json.dumps(c, sort_keys=True) not in seen]
     n_rand, n_pert, n_mal, n_help = {"quick": (6000, 2500, 200, 2500), "escalated": (16000, 7000, 400, 6000)}.get(
         tier, (60000, 25000, 1000, 15000))
+    n_spread = {"quick": 1200, "escalated": 3000}.get(tier, 10000)
+    for _ in range(n_spread):
+        out.append(_spread_case(rng) if rng.random() < 0.6 else _spread_random(rng))
     for _ in range(n_rand):
         out.append(_rand_identify(rng, 6 if rng.random() < 0.35 else 5))
     seeds = [c for c in CORPUS if "malformed" not in c]
@@ -412,7 +489,8 @@ def _run_identify(case):
     log = _line_log()
     valid = _valid_identify(case)
     fail = None
-    tags = {"kind": "identify", "n_nodes": len(G.all_nodes(g)), "n_domains": len(doms), "valid_input": valid}
+    tags = {"kind": "identify", "n_nodes": len(G.all_nodes(g)), "n_domains": len(doms), "valid_input": valid,
+            "stream": case.get("stream", "random")}
     try:
         r = identify_target_outcomes(graph, target_outcomes=Y, target_interventions=X, surrogate_outcomes=so,
                                      surrogate_interventions=si)
@@ -460,11 +538,28 @@ def _run_identify(case):
                     break
                 truth = fam.effect(case["X"], case["Y"])
                 if not fam.equal_everywhere(val, truth):
+                    tags["estimand_wrong"] = True
                     fail = ("estimand differs from P*(y|do(x)): " + json.dumps(fam.first_difference(val, truth))
                             + " family " + json.dumps(fam.describe()) + " estimand " + str(r)[:400])
                     break
     else:
         tags["outcome"] = out[0] if out[0] != "err" else "err-" + out[1]
+    # (e) on every identify case: the real get_nodes_to_transport of every declared domain vs the independent rule
+    if valid and fail is None:
+        from y0.algorithm.transport import get_nodes_to_transport
+        for k, (Z, W) in enumerate(doms):
+            try:
+                got = {G.vint(v) for v in get_nodes_to_transport(surrogate_interventions={V(z) for z in Z},
+                                                                 surrogate_outcomes={V(w) for w in W}, graph=graph)}
+            except Exception as e:  # noqa: BLE001
+                fail = f"get_nodes_to_transport raised {type(e).__name__} for domain {k + 1} (Z={Z}, W={W})"
+                break
+            exp = set(FE.nodes_may_differ(g, Z, W))
+            if got != exp:
+                fail = (f"domain {k + 1} (Z={sorted(Z)}, W={sorted(W)}): selection nodes placed at {sorted(got)}, the rule "
+                        f"(De(Z)-W) u (C(W)-An(W) in G[bar Z]) gives {sorted(exp)}")
+                tags["nodes_rule_violated"] = True
+                break
     # (b) no usable surrogate experiment: verdict must be ID's
     if valid and fail is None and all(not Z for Z, _ in doms):
         tags["no_surrogate"] = True
